@@ -66,6 +66,7 @@ type RunResult struct {
 	Functions    []string          `json:"functions,omitempty"`
 	StubCalls    map[string]int    `json:"stub_calls,omitempty"`
 	KnownSeen    []string          `json:"known_seen,omitempty"`
+	Cuts         map[string]int    `json:"cuts,omitempty"`
 	CrossChecked int               `json:"cross_checked,omitempty"`
 	CrossDisagree []string         `json:"cross_disagree,omitempty"`
 	Truncated    bool              `json:"truncated,omitempty"`
@@ -146,7 +147,7 @@ func (in *Interp) panicString(fr *frame, v value) string {
 				return cs
 			}
 		}
-		if m := in.prog.ssa.LookupMethod(it.t, nil, "Error"); m != nil && in.path != nil {
+		if m := in.findMethod(it.t, "Error"); m != nil && in.path != nil {
 			var out string
 			func() {
 				defer func() { recover() }()
@@ -179,6 +180,7 @@ func (in *Interp) runPath(h *Harness, cfg *RunConfig, item *WorkItem, res *pathR
 		ghost:    map[string]value{},
 		known:    cfg.Known,
 		knownSeen: map[string]bool{},
+		cuts:     map[string]int{},
 		pcVars:   map[*term.Term]bool{},
 		stubCalls: map[string]int{},
 		stopOnViolation: cfg.StopOnViolation,
@@ -399,6 +401,12 @@ func Explore(prog *Program, pool *Pool, cfg RunConfig) (*RunResult, error) {
 				for k := range p.knownSeen {
 					knownSeen[k] = true
 				}
+				for k, n := range p.cuts {
+					if res.Cuts == nil {
+						res.Cuts = map[string]int{}
+					}
+					res.Cuts[k] += n
+				}
 				res.AssertQ += p.assertQueries
 				res.Queries += p.oneShotQueries
 				res.SolverTime += p.oneShotTime.Seconds()
@@ -509,7 +517,7 @@ func (p *Pool) RunConcrete(prog *Program, cfg RunConfig, input Model) (labels []
 	ps := &pathState{
 		maxSteps: 4000000, maxDecs: 100000, maxConc: 64,
 		covers: map[string]Model{}, asserts: map[string]int{}, varCtr: map[string]int{}, ghost: map[string]value{},
-		known: cfg.Known, knownSeen: map[string]bool{}, pcVars: map[*term.Term]bool{}, stubCalls: map[string]int{},
+		known: cfg.Known, knownSeen: map[string]bool{}, cuts: map[string]int{}, pcVars: map[*term.Term]bool{}, stubCalls: map[string]int{},
 		concrete: true, input: input, harness: h,
 	}
 	ps.model = term.Env{}
